@@ -49,7 +49,7 @@ def monitor(sc, res):
             dest = op.get("_dest")
             for e in ev:
                 paths = [os.path.normpath(x) for x in e[1:] if isinstance(x, str) and x.startswith("/")]
-                if k == "flatten" and dest and all(p.startswith(dest) for p in paths):
+                if k == "flatten" and dest and all(p == dest or p.startswith(dest + os.sep) for p in paths):
                     continue
                 fails.append({"what": f"{desc} performed a file-system mutation: {e}", "replay": sc})
         elif k == "create":
@@ -115,6 +115,8 @@ def run(ctx):
         # add hash / flatten / verify -pl so that every command kind occurs
         if rnd.random() < 0.5:
             sc["ops"] += [{"op": "flatten", "at": "", "dest_rel": rnd.random() < 0.5}, {"op": "verifypl", "at": ""}]
+        if rnd.random() < 0.25:
+            sc["ops"] += [{"op": "flatten", "at": "", "dest_missing_parent": True, "impl_only": True}]
         if rnd.random() < 0.3:
             # leftovers of an interrupted create inside the ascmhl folder: no command but a later create may replace
             # its own temporary files, and read-only commands leave them alone
